@@ -354,6 +354,8 @@ type Relationship struct {
 	ID     string `xml:"Id,attr"`
 	Type   string `xml:"Type,attr"`
 	Target string `xml:"Target,attr"`
+	// TargetMode 为 "External" 时目标是包外的URI（例如超链接）；内部关系省略该属性
+	TargetMode string `xml:"TargetMode,attr,omitempty"`
 }
 
 // ContentTypes 内容类型
